@@ -335,6 +335,45 @@ func isFunctionOrKeyword(token string) bool {
 	return exists
 }
 
+// HasFunctionCall reports whether the expression contains a function call. An
+// expression that the SQL expression parser could not parse is left to expr-lang
+// and not analysed; it is reported as containing one.
+func (e *Expression) HasFunctionCall() bool {
+	if e.useExprLang || e.Root == nil {
+		return true
+	}
+	return hasFunctionNode(e.Root)
+}
+
+// hasFunctionNode reports whether the tree below node contains a function call
+func hasFunctionNode(node *ExprNode) bool {
+	if node == nil {
+		return false
+	}
+	if node.Type == TypeFunction {
+		return true
+	}
+	if hasFunctionNode(node.Left) || hasFunctionNode(node.Right) {
+		return true
+	}
+	for _, arg := range node.Args {
+		if hasFunctionNode(arg) {
+			return true
+		}
+	}
+	if node.CaseExpr != nil {
+		if hasFunctionNode(node.CaseExpr.Value) || hasFunctionNode(node.CaseExpr.ElseResult) {
+			return true
+		}
+		for _, whenClause := range node.CaseExpr.WhenClauses {
+			if hasFunctionNode(whenClause.Condition) || hasFunctionNode(whenClause.Result) {
+				return true
+			}
+		}
+	}
+	return false
+}
+
 // collectFields collects all fields in the expression
 func collectFields(node *ExprNode, fields map[string]bool) {
 	if node == nil {
